@@ -269,6 +269,19 @@ class Frame:
         else:
             self.res = res
 
+    def wide(self, name, bits=64):
+        """bit-vector mode: the argument as a `bits`-wide value of its own declared type (sign- or
+        zero-extended), so that a contract written over 64-bit values still type-checks - and says
+        what the function computes - when a parameter type in the decorator is changed"""
+        v = self.argvals[name]
+        t = v.t
+        if not z3.is_bv(t) or t.size() == bits:
+            return t
+        if t.size() > bits:
+            return z3.Extract(bits - 1, 0, t)
+        signed = getattr(v.ty, "signed", False)
+        return z3.SignExt(bits - t.size(), t) if signed else z3.ZeroExt(bits - t.size(), t)
+
     # proof-side helpers; at call sites and in lemmas they have nothing to offer
     def local(self, name, default=None):
         return default
@@ -409,6 +422,7 @@ class Engine:
         self.hints = []
         self.float_safety = getattr(contract, "float_safety", False)
         self.clause_filter = None  # fn(contract name, clause name) -> bool : restrict to a property's cone
+        self.inline = False  # executing a callee that has no contract inside its caller's proof
 
     # ------------------------------------------------------------------ entry
     def run(self):
@@ -848,6 +862,9 @@ class Engine:
         if self.interp:
             self.results.append(("return", val, p))
             return
+        if self.inline:
+            self.results.append(("return", self._cast_value(val, self.tir.return_type), p))
+            return
         val = self._cast_value(val, self.tir.return_type)
         F = self._frame(p.heap, val)
 
@@ -898,7 +915,7 @@ class Engine:
                     self._emit("frame", "unchanged:" + n, p, f, self.cur_loc)
 
     def _raise(self, cls, p):
-        if self.interp:
+        if self.interp or self.inline:
             self.results.append(("raise", cls, p))
             return
         allowed = []
@@ -1130,7 +1147,12 @@ class Engine:
             sub.sem = sem
             sub.interp = True
             return sub.interpret_with(args, p, sig)
-        c = self._callee_contract(fty)
+        try:
+            c = self._callee_contract(fty)
+        except Unsupported:
+            if "%s.%s" % (pf.__module__.split(".")[-1], pf.__name__) in self.registry:
+                raise
+            return self._inline_call(fty, sig, args, p)
         cname = c.name
         argvals = {}
         for n, a, t in zip(names, args, sig.args):
@@ -1180,6 +1202,64 @@ class Engine:
                 p2.pc.append(cond)
                 self._raise(exc, p2)
                 p.pc.append(z3.Not(cond))
+        return res
+
+    def _inline_call(self, fty, sig, args, p):
+        """a callee without a contract (e.g. a helper split off by a refactoring) is executed
+        symbolically inside the caller's proof - its body is its contract.  Supported: callees that
+        store into no array, raise nothing and whose loops (if any) have concrete bounds; its safety
+        obligations become obligations of the caller; its return paths are joined into one value."""
+        from .extract import typed_ir
+
+        sem = self.sem
+        tir = typed_ir(fty.dispatcher)
+        if tir_mode(tir, self.registry) != sem.mode and sem.mode != INT:
+            raise Unsupported("no contract for callee %s (and it cannot be inlined across encodings)" % tir.qualname)
+        sub = Engine(tir, None, self.registry, unroll=True)
+        sub.sem = sem
+        sub.inline = True
+        sub.obligations = self.obligations
+        sub.fname = self.fname
+        sub.cur_loc = getattr(self, "cur_loc", None)
+        sub.ghosts = NS()
+        sub.depth = getattr(self, "depth", 0) + 1
+        if sub.depth > 4:
+            raise Unsupported("inlining deeper than 4 calls (%s)" % tir.qualname)
+        sp = Path()
+        sp.heap = dict(p.heap)
+        sp.iters = p.iters
+        sp.pc = list(p.pc)
+        sp.pid = p.pid
+        sub.argvals = {}
+        for n, a, t in zip(tir.arg_names, args, sig.args):
+            if isinstance(a, Sc):
+                a = self._cast_pc(p, a, unlit(t), [])
+            sub.argvals[n] = a
+            sp.env[n] = a
+        sub.entry_heap = dict(p.heap)
+        n0 = len(p.pc)
+        try:
+            sub._explore([(min(sub.blocks), sp)])
+        except Unsupported as e:
+            raise Unsupported("no contract for callee %s and its body cannot be inlined (%s)" % (tir.qualname, e))
+        rets = [r for r in sub.results if r[0] == "return"]
+        if len(rets) != len(sub.results) or not rets:
+            raise Unsupported("no contract for callee %s and it may raise: cannot be inlined" % tir.qualname)
+        for _, _, rp in rets:
+            for aid, arr in p.heap.items():
+                if rp.heap.get(aid) is not arr:
+                    raise Unsupported("no contract for callee %s and it stores into an array: cannot be inlined" % tir.qualname)
+        self.sem.assumptions.add("callee %s has no contract: its body was executed inside the proof of %s" % (tir.qualname, self.fname))
+        rty = unlit(sig.return_type)
+        if isinstance(rty, nt.NoneType):
+            return NONE
+        if len(rets) == 1:
+            p.pc.extend(rets[0][2].pc[n0:])
+            return rets[0][1]
+        res = self._fresh_value(uid("ret_" + tir.qualname.split(".")[-1]), rty, p)
+        if not isinstance(res, Sc):
+            raise Unsupported("no contract for callee %s returning %s" % (tir.qualname, rty))
+        p.pc.append(z3.Or(*[z3.And(*(list(rp.pc[n0:]) + [res.t == rv.t])) for _, rv, rp in rets]))
         return res
 
     def _fresh_value(self, name, ty, p):
